@@ -24,50 +24,67 @@ theorem deletionCost_pos : 0 < deletionCost := by decide
 theorem insertionCost_pos : 0 < insertionCost := by decide
 theorem penalty_le_one : initialMismatchPenalty ≤ 1 := by decide
 theorem penalty_pos : 0 < initialMismatchPenalty := by decide
-theorem candidates_eq : candidates =
-    [(.up, .insertion, .mismatch insertionCost), (.left, .deletion, .mismatch deletionCost),
-     (.diag, .noOp, .parentCostIfEqualElseMax)] := by decide
+/-- The candidate order the proofs cover: the two edit candidates (either order) before the
+no-op candidate. Ties therefore never go to the no-op. -/
+theorem candidates_order :
+    candidates = [(.up, .insertion, .mismatch insertionCost), (.left, .deletion, .mismatch deletionCost),
+      (.diag, .noOp, .parentCostIfEqualElseMax)] ∨
+    candidates = [(.left, .deletion, .mismatch deletionCost), (.up, .insertion, .mismatch insertionCost),
+      (.diag, .noOp, .parentCostIfEqualElseMax)] := by decide
 
 def insCand (up : Nbr) : Cell := ⟨up.pos, .insertion, mismatchCost up.cell insertionCost⟩
 def delCand (left : Nbr) : Cell := ⟨left.pos, .deletion, mismatchCost left.cell deletionCost⟩
 def noopCand (diag : Nbr) : Cell := ⟨diag.pos, .noOp, diag.cell.cost⟩
 
-/-- `choose` spelt out for the candidate order insertion, deletion, no-op. -/
-def chooseSpec (up left diag : Nbr) (eq : Bool) : Cell :=
-  if eq then
-    (if (delCand left).cost ≤ (noopCand diag).cost then
-      (if (insCand up).cost ≤ (delCand left).cost then insCand up else delCand left)
-     else
-      (if (insCand up).cost ≤ (noopCand diag).cost then insCand up else noopCand diag))
-  else (if (insCand up).cost ≤ (delCand left).cost then insCand up else delCand left)
+/-- The cell `choose` returns (it always returns one, `choose_eq`). -/
+def chooseSpec (up left diag : Nbr) (eq : Bool) : Cell := (choose up left diag eq).getD origin
 
-theorem choose_eq (up left diag : Nbr) (eq : Bool) :
-    choose up left diag eq = some (chooseSpec up left diag eq) := by
+/-- What the proofs use about `choose`: the result is one of the candidates, of minimal cost,
+and it is the no-op only when that is strictly cheaper than both edits. -/
+theorem choose_cases (up left diag : Nbr) (eq : Bool) :
+    ∃ c, choose up left diag eq = some c ∧
+    ((c = insCand up ∧ (insCand up).cost ≤ (delCand left).cost ∧
+        (eq = true → (insCand up).cost ≤ (noopCand diag).cost)) ∨
+    (c = delCand left ∧ (delCand left).cost ≤ (insCand up).cost ∧
+        (eq = true → (delCand left).cost ≤ (noopCand diag).cost)) ∨
+    (c = noopCand diag ∧ eq = true ∧
+        (noopCand diag).cost < (insCand up).cost ∧ (noopCand diag).cost < (delCand left).cost)) := by
   unfold choose
-  rw [candidates_eq]
-  cases eq
-  · simp only [List.filterMap_cons, List.filterMap_nil, candidate, minByCost, chooseSpec, insCand,
+  rcases candidates_order with ho | ho <;> rw [ho] <;> cases eq
+  · simp only [List.filterMap_cons, List.filterMap_nil, candidate, minByCost, insCand,
       delCand, noopCand, Bool.false_eq_true, if_false]
-    by_cases h : mismatchCost up.cell insertionCost ≤ mismatchCost left.cell deletionCost <;> simp [h]
-  · simp only [List.filterMap_cons, List.filterMap_nil, candidate, minByCost, chooseSpec, insCand,
+    by_cases h : mismatchCost up.cell insertionCost ≤ mismatchCost left.cell deletionCost <;>
+      simp [h] <;> omega
+  · simp only [List.filterMap_cons, List.filterMap_nil, candidate, minByCost, insCand,
       delCand, noopCand, if_true]
     by_cases h1 : mismatchCost left.cell deletionCost ≤ diag.cell.cost <;>
     by_cases h2 : mismatchCost up.cell insertionCost ≤ mismatchCost left.cell deletionCost <;>
-    by_cases h3 : mismatchCost up.cell insertionCost ≤ diag.cell.cost <;> simp [h1, h2, h3]
+    by_cases h3 : mismatchCost up.cell insertionCost ≤ diag.cell.cost <;> simp [h1, h2, h3] <;> omega
+  · simp only [List.filterMap_cons, List.filterMap_nil, candidate, minByCost, insCand,
+      delCand, noopCand, Bool.false_eq_true, if_false]
+    by_cases h : mismatchCost left.cell deletionCost ≤ mismatchCost up.cell insertionCost <;>
+      simp [h] <;> omega
+  · simp only [List.filterMap_cons, List.filterMap_nil, candidate, minByCost, insCand,
+      delCand, noopCand, if_true]
+    by_cases h1 : mismatchCost up.cell insertionCost ≤ diag.cell.cost <;>
+    by_cases h2 : mismatchCost left.cell deletionCost ≤ mismatchCost up.cell insertionCost <;>
+    by_cases h3 : mismatchCost left.cell deletionCost ≤ diag.cell.cost <;> simp [h1, h2, h3] <;> omega
+
+theorem choose_eq (up left diag : Nbr) (eq : Bool) :
+    choose up left diag eq = some (chooseSpec up left diag eq) := by
+  obtain ⟨c, hc, _⟩ := choose_cases up left diag eq
+  simp [chooseSpec, hc]
 
 theorem chooseSpec_cases (up left diag : Nbr) (eq : Bool) :
     (chooseSpec up left diag eq = insCand up ∧ (insCand up).cost ≤ (delCand left).cost ∧
         (eq = true → (insCand up).cost ≤ (noopCand diag).cost)) ∨
-    (chooseSpec up left diag eq = delCand left ∧ (delCand left).cost < (insCand up).cost ∧
+    (chooseSpec up left diag eq = delCand left ∧ (delCand left).cost ≤ (insCand up).cost ∧
         (eq = true → (delCand left).cost ≤ (noopCand diag).cost)) ∨
     (chooseSpec up left diag eq = noopCand diag ∧ eq = true ∧
         (noopCand diag).cost < (insCand up).cost ∧ (noopCand diag).cost < (delCand left).cost) := by
-  unfold chooseSpec
-  cases eq
-  · by_cases h : (insCand up).cost ≤ (delCand left).cost <;> simp [h] <;> omega
-  · by_cases h1 : (delCand left).cost ≤ (noopCand diag).cost <;>
-    by_cases h2 : (insCand up).cost ≤ (delCand left).cost <;>
-    by_cases h3 : (insCand up).cost ≤ (noopCand diag).cost <;> simp [h1, h2, h3] <;> omega
+  obtain ⟨c, hc, h⟩ := choose_cases up left diag eq
+  have : chooseSpec up left diag eq = c := by simp [chooseSpec, hc]
+  rw [this]; exact h
 
 /-- Border cell `(0, j)`, `j ≥ 1`. -/
 def colLeft (j : Nat) : Cell := ⟨(0, 0), firstColOp, j * firstColStep + firstColExtra⟩
